@@ -199,7 +199,7 @@ Definition stepf (s : st) (l : label) : option st :=
     | Some th =>
       if t_watcher th then None else
       Some (with_threads s (upd (threads s) t
-             {| t_call := t_call th; t_pc := t_pc th; t_ctx := true; t_watcher := false;
+             {| t_call := t_call th; t_pc := t_pc th; t_ctx := true; t_watcher := t_watcher th;
                 t_born_closed := t_born_closed th; t_born_done := t_born_done th |}))
     | None => None
     end
